@@ -34,7 +34,9 @@ def cases(draw):
         c = draw(gens.fl(0, nper * P))
         ts = [t0 + c + draw(gens.fl(0, 0.05 * P)) for _ in range(n)]
     return {"t": [gens.rounded(x, 13) for x in ts], "P": P, "P_unit": draw(st.sampled_from(["d", "yr", "h"])),
-            "t_ref": draw(st.sampled_from(["default", "explicit"])), "t_ref_val": t0 - draw(gens.fl(0, 3)) * P,
+            "t_ref": draw(st.sampled_from(["default", "explicit"])),
+            # an explicit reference epoch before, inside or after the observed baseline
+            "t_ref_val": t0 + draw(st.one_of(gens.fl(-3, 0), gens.fl(0, 1).map(lambda x: x * nper), gens.fl(1, 1.5).map(lambda x: x * nper))) * P,
             "n_bins": draw(st.integers(1, 50)), "perm_seed": draw(st.integers(0, 10**6)), "mode": mode,
             "clean": draw(st.sampled_from([True, True, False])), "presorted": draw(st.booleans())}
 
@@ -175,6 +177,9 @@ def map_body_factory(ctx):
         for mm in (m, m2):
             if len(mm) != 1 or float(mm["P"].value[0]) != float(int(idx) + 1) or float(np.asarray(mm["ln_prior"])[0]) != case["ln_prior"][int(idx)]:
                 raise Violation("MAP_sample does not return the row at the reported index")
+        if not (np.array_equal(np.asarray(s["ln_prior"], dtype=float), np.array(case["ln_prior"], dtype=float))
+                and np.array_equal(np.asarray(s["ln_likelihood"], dtype=float), np.array(case["ln_like"], dtype=float))):
+            raise Violation("MAP_sample modified the log-probability columns of the table it was given")
         ties = sum(1 for p in post if p == best) > 1
         ctx.note_case(case, n >= 2, ["map:ties" if ties else "map:unique", "map:ln_posterior column" if case.get("ln_posterior") is not None else "map:two columns", "map:n=%s" % ("1" if n == 1 else ">1")])
 
